@@ -16,7 +16,7 @@ open Flatland.C06
 
 def allAttrs : List Attr :=
   [.name, .optional, .default, .validators, .descentValidators, .memberSchema, .fieldSchema,
-   .validValues, .targetPath]
+   .validValues, .targetPath, .policy]
 
 /-- everything an observer can read off class `c` -/
 def observe (σ : State) (c : ClassId) : List DVal × List (Str × Int) :=
